@@ -44,7 +44,7 @@ Definition L_doc_noenv := lit "document ::= content".
 Definition L_root := lit "root ::= document".
 
 Definition lines_expected (hs : str -> str) (hf : field -> str -> str) (fs : list field) (env : bool) : list str :=
-  [L_hdr ++ hs h_schema_name ++ []; []; L_ws; []]
+  [L_hdr ++ hs h_schema_name_1line ++ []; []; L_ws; []]
   ++ map (fun f => hf f h_rule_name ++ fl_a ++ hf f h_field_name_esc ++ fl_b ++ hf f h_pattern ++ []) fs
   ++ [[]]
   ++ (if is_nil fs then [L_content_nf] else [L_field_open ++ hs h_field_refs ++ [41]; L_content_f])
@@ -72,14 +72,14 @@ Definition mid_lines (s : schema) (env : bool) : list str :=
   ++ [[]].
 
 Theorem schema_lines_eq s env :
-  schema_lines s env = ((L_hdr ++ sc_name s) :: mid_lines s env) ++ [L_root].
+  schema_lines s env = ((L_hdr ++ one_line (sc_name s)) :: mid_lines s env) ++ [L_root].
 Proof.
   rewrite schema_lines_g, lines_g_eq. unfold lines_expected, mid_lines.
   assert (Em : map (fun f => hole_field s f h_rule_name ++ fl_a ++ hole_field s f h_field_name_esc ++ fl_b
                              ++ hole_field s f h_pattern ++ []) (sc_fields s) = map field_line (sc_fields s)).
   { apply map_ext. intro f. rewrite app_nil_r, field_line_eq. reflexivity. }
-  rewrite Em. rewrite (app_nil_r (hole_schema s h_schema_name)).
-  change (hole_schema s h_schema_name) with (sc_name s).
+  rewrite Em. rewrite (app_nil_r (hole_schema s h_schema_name_1line)).
+  change (hole_schema s h_schema_name_1line) with (one_line (sc_name s)).
   change (L_field_open ++ hole_schema s h_field_refs ++ [41]) with (refs_line s).
   change (L_env_start ++ hole_schema s h_schema_upper_esc ++ L_env_start_close) with (env_start_line s).
   cbn [app]. rewrite <- !app_assoc. cbn [app].
@@ -283,6 +283,48 @@ Proof.
   - destruct (gbnf_min_length_threshold <=? n); reflexivity.
 Qed.
 
+(* ---- the header shows the schema name on ONE line (repo b75eb16): no CR / LF in it, for EVERY name ----------------- *)
+Lemma splitlines_go_pres (P Q : N -> bool) :
+  (forall c, Q c = true -> is_linebreak c = false -> P c = true) ->
+  forall s cur, forallb Q s = true -> forallb P cur = true -> forallb (forallb P) (splitlines_go cur s) = true.
+Proof.
+  intro HPQ.
+  assert (G : forall n s cur, (length s <= n)%nat -> forallb Q s = true -> forallb P cur = true ->
+                              forallb (forallb P) (splitlines_go cur s) = true).
+  { induction n as [|n IH]; intros s cur Hn Hs Hc; destruct s as [|c s']; cbn [splitlines_go].
+    - destruct cur as [|x cur']; [reflexivity|]. cbn [forallb]. rewrite forallb_rev, Hc. reflexivity.
+    - cbn [length] in Hn. lia.
+    - destruct cur as [|x cur']; [reflexivity|]. cbn [forallb]. rewrite forallb_rev, Hc. reflexivity.
+    - cbn [length] in Hn. cbn [forallb] in Hs. apply andb_true_iff in Hs as [Hq Hs'].
+      assert (Hr : forallb P (rev cur) = true) by (rewrite forallb_rev; exact Hc).
+      assert (Hn' : (length s' <= n)%nat) by lia.
+      destruct (N.eqb c 13).
+      + destruct s' as [|d s''].
+        * cbn [forallb]. rewrite Hr. apply IH; [exact Hn'|reflexivity|reflexivity].
+        * destruct (N.eqb d 10); cbn [forallb]; rewrite Hr; cbn [andb].
+          -- cbn [forallb] in Hs'. apply andb_true_iff in Hs' as [_ Hs'']. cbn [length] in Hn'.
+             apply IH; [lia|exact Hs''|reflexivity].
+          -- apply IH; [exact Hn'|exact Hs'|reflexivity].
+      + destruct (is_linebreak c) eqn:El.
+        * cbn [forallb]. rewrite Hr. apply IH; [exact Hn'|exact Hs'|reflexivity].
+        * apply IH; [exact Hn'|exact Hs'|]. cbn [forallb]. rewrite (HPQ c Hq El), Hc. reflexivity. }
+  intros s cur. apply (G (length s)). apply Nat.le_refl.
+Qed.
+
+Lemma one_line_nonl s : forallb nonl (one_line s) = true.
+Proof.
+  unfold one_line. apply forallb_join; [reflexivity|]. unfold py_splitlines.
+  apply (splitlines_go_pres nonl (fun _ => true)); [|apply forallb_forall; reflexivity|reflexivity].
+  intros c _ H. unfold is_linebreak in H. unfold nonl. change c_cr with 13. change c_nl with 10.
+  destruct (N.eqb c 10); [cbn in H; discriminate|]. destruct (N.eqb c 13); [cbn in H; discriminate|]. reflexivity.
+Qed.
+
+Lemma one_line_nz s : forallb nz s = true -> forallb nz (one_line s) = true.
+Proof.
+  intro H. unfold one_line. apply forallb_join; [reflexivity|]. unfold py_splitlines.
+  apply (splitlines_go_pres nz nz); [intros c Hc _; exact Hc|exact H|reflexivity].
+Qed.
+
 (* the one clause safe_schema does not contain: the compiled pattern of a REGEX member has no NUL
    (Safe.line_rule recognises the line WITHOUT the C-string cut) *)
 Definition regex_nul_free (s : schema) : bool :=
@@ -327,7 +369,7 @@ Proof.
   change (compile_schema s env) with (join gbnf_schema_line_sep (schema_lines s env)). apply forallb_join; [reflexivity|]. rewrite schema_lines_eq.
   rewrite forallb_app. apply andb_true_iff. split; [|reflexivity].
   cbn [forallb]. apply andb_true_iff. split.
-  { rewrite forallb_app, (comment_safe_nz (sc_name s)) by exact Hsn. reflexivity. }
+  { rewrite forallb_app, (one_line_nz (sc_name s)) by (apply no_nul_nz; exact Hsn). reflexivity. }
   assert (Hf : forallb (forallb nz) (map field_line (sc_fields s)) = true).
   { apply forallb_forall. intros l Hl. apply in_map_iff in Hl as (f & <- & Hf).
     rewrite field_line_eq, escape_literal_spec, !forallb_app.
@@ -419,8 +461,7 @@ Proof.
   change (compile_schema s env) with (join gbnf_schema_line_sep (schema_lines s env)). rewrite schema_lines_eq.
   change gbnf_schema_line_sep with [c_nl]. rewrite join_nl_snoc.
   unfold unlines. cbn [flat_map]. fold (unlines (mid_lines s env)).
-  destruct (safe_schema_parts _ _ H) as [_ _ _ _ Hsn _ _]. apply andb_true_iff in Hsn as [Hsn _].
-  do 2 rewrite run_app. rewrite header_run by (apply comment_safe_nonl; exact Hsn).
+  do 2 rewrite run_app. rewrite header_run by apply one_line_nonl.
   rewrite (run_lines _ _ _ (mid_lines_rules _ _ H)). rewrite root_finish. cbn [app].
   f_equal. unfold grammar_of. rewrite !app_assoc. rewrite removelast_last. reflexivity.
 Qed.
